@@ -16,7 +16,7 @@ from typing import Dict, List, Tuple
 
 from ..index import AnalysisError, Index, call_name, norm, walk_no_nested
 from ..report import Report
-from ..rules import cfg_of
+from ..rules import cfg_of, guards_dominating
 from ..walkersdb import WalkerDB
 
 
@@ -111,23 +111,56 @@ def run(idx: Index, rep: Report, tier: str) -> None:
     from ..rules2 import path_facts
 
     ncfg = cfg_of(nn)
-    seen_cells = {}
+
+    def ev(t, env):
+        """Three-valued evaluation of a test over the atoms of `env` (None = unknown)."""
+        if isinstance(t, ast.Constant):
+            return bool(t.value)
+        if isinstance(t, ast.UnaryOp) and isinstance(t.op, ast.Not):
+            v = ev(t.operand, env)
+            return None if v is None else not v
+        if isinstance(t, ast.BoolOp):
+            vs = [ev(x, env) for x in t.values]
+            if isinstance(t.op, ast.And):
+                return False if any(v is False for v in vs) else (None if any(v is None for v in vs) else True)
+            return True if any(v is True for v in vs) else (None if any(v is None for v in vs) else False)
+        if isinstance(t, ast.Compare) and len(t.ops) == 1 and isinstance(t.ops[0], (ast.Eq, ast.NotEq, ast.Is, ast.IsNot)):
+            a, b = ev(t.left, env), ev(t.comparators[0], env)
+            if a is None or b is None:
+                return None
+            return (a == b) if isinstance(t.ops[0], (ast.Eq, ast.Is)) else (a != b)
+        return env.get(norm(t))
+
+    sites = []
     for nd in ncfg.nodes:
-        if nd.ast is None or nd.kind != "stmt":
+        if nd.ast is None or nd.kind not in ("stmt", "return"):
             continue
         calls = [c for c in ast.walk(nd.ast) if isinstance(c, ast.Call) and call_name(c) in ("And", "Or") and isinstance(c.func, ast.Attribute)]
         if len(calls) != 1:
             continue
-        facts = path_facts(ncfg, nd)
-        if ("status", True) not in facts:
-            continue
-        kind = "is_and" if ("e.is_and()", True) in facts else "is_or" if (("e.is_or()", True) in facts or ("e.is_and()", False) in facts) else None
-        pol = True if ("p", True) in facts else False if ("p", False) in facts else None
-        if kind is None or pol is None:
-            continue
-        seen_cells.setdefault((kind, pol), []).append((call_name(calls[0]), nd.ast))
+        gs = [(t.ast, bool(o)) for t, o in guards_dominating(ncfg, nd)]
+        if any(ev(t, {"status": False}) is o for t, o in gs if ev(t, {"status": False}) is not None) and not any(ev(t, {"status": True}) is o for t, o in gs if ev(t, {"status": True}) is not None):
+            continue  # belongs to the expansion phase
+        sites.append((nd, calls[0], gs))
+    # a conditional expression choosing the connective (`And if c else Or`) is a site for each arm
+    cells = {}
+    for is_and in (True, False):
+        for pol in (True, False):
+            env = {"status": True, "e.is_and()": is_and, "e.is_or()": not is_and, "p": pol}
+            reached = []
+            for nd, call, gs in sites:
+                if all(ev(t, env) in (o, None) for t, o in gs):
+                    # conditional expression inside the statement
+                    par = [x for x in ast.walk(nd.ast) if isinstance(x, ast.IfExp) and any(y is call for y in ast.walk(x))]
+                    if par:
+                        c = ev(par[0].test, env)
+                        arm = par[0].body if c else par[0].orelse
+                        if c is None or not any(y is call for y in ast.walk(arm)):
+                            continue
+                    reached.append((call_name(call), nd.ast))
+            cells[(is_and, pol)] = reached
     for pred, pos, neg in (("is_and", "And", "Or"), ("is_or", "Or", "And")):
-        t, e = seen_cells.get((pred, True), []), seen_cells.get((pred, False), [])
+        t, e = cells.get((pred == "is_and", True), []), cells.get((pred == "is_and", False), [])
         ok = len(t) == 1 and len(e) == 1 and t[0][0] == pos and e[0][0] == neg
         b = (t or e or [(None, None)])[0][1]
         rep.check(ok, rule2, f"rebuild {pred[3:].upper()}: positive polarity -> {pos}, negative -> {neg}", nn.loc(b) if b is not None else nn.loc(), construct=f"{pred}: p ? {pos} : {neg}", detail="" if ok else "De Morgan's law is not applied (or applied under the wrong polarity)", function=nn.qualname)
